@@ -601,6 +601,41 @@ macro_rules! c11_builder_ops {
     };
 }
 
+harness! {
+    /// kind=bounded tier=quick bound="ArrayBuilder<T, 3> for a zero-sized T ((), and a unit struct with drop glue): k <= 3 pushes (k symbolic), observing len / is_full / as_slice().len() after every push; the `while !is_full() { push }` idiom; build when full"
+    #[kani::unwind(6)]
+    fn c11_builder_zero_sized_elements(s) {
+        struct Unit;
+        impl Drop for Unit { fn drop(&mut self) {} }
+        let k = s.upto(3);
+        let mut b = ArrayBuilder::<(), 3>::new();
+        let mut u = ArrayBuilder::<Unit, 3>::new();
+        let mut j = 0;
+        while j < 3 {
+            if j < k {
+                b.push(());
+                u.push(Unit);
+            }
+            j += 1;
+        }
+        chk!(s, b.len() == k && u.len() == k, "C11.builder.zst.len_counts_pushes");
+        chk!(s, b.is_full() == (k == 3) && u.is_full() == (k == 3), "C11.builder.zst.is_full_iff_n_pushes");
+        chk!(s, b.as_slice().len() == k && u.as_slice().len() == k, "C11.builder.zst.as_slice_len_counts_pushes");
+        let mut fills = 0usize;
+        let mut guard = 0;
+        while !b.is_full() && guard < 4 {
+            b.push(());
+            fills += 1;
+            guard += 1;
+        }
+        chk!(s, fills == 3 - k, "C11.builder.zst.fill_loop_pushes_exactly_the_missing_elements");
+        let arr: [(); 3] = b.build();
+        chk!(s, arr.len() == 3, "C11.builder.zst.build_after_fill");
+        cov!(s, k == 0, "C11.cover.zst_builder_empty");
+        cov!(s, k == 3, "C11.cover.zst_builder_full");
+    }
+}
+
 c11_builder_ops! {c11_builder_ops_n0, 0}
 c11_builder_ops! {c11_builder_ops_n1, 1}
 c11_builder_ops! {c11_builder_ops_n2, 2}
